@@ -18,7 +18,7 @@ use std::cell::RefCell;
 use std::process::Command;
 
 pub fn handles(id: &str) -> bool {
-    matches!(id, "C04" | "C11" | "C15" | "C16" | "C17" | "C18" | "C20")
+    matches!(id, "C04" | "C06" | "C11" | "C15" | "C16" | "C17" | "C18" | "C20")
 }
 
 pub fn rule(id: &str) -> String {
@@ -148,7 +148,11 @@ macro_rules! try_outcome {
 pub fn run(cfg: &RunCfg, stats: &mut Stats, exhaustive: &mut bool, extra: &mut Value) -> Outcome {
     match cfg.id.as_str() {
         "C04" => run_c04(cfg, stats),
-        "C11" => run_c11_static(cfg, stats),
+        "C06" => run_walks(cfg, stats, 1),
+        "C11" => match run_c11_static(cfg, stats) {
+            Outcome::Pass => run_walks(cfg, stats, 1),
+            other => other,
+        },
         "C15" => run_c15(cfg, stats),
         "C16" => run_c16(cfg, stats, exhaustive, extra),
         "C17" => run_c17(cfg, stats, exhaustive, extra),
@@ -391,6 +395,138 @@ fn run_c11_static(cfg: &RunCfg, stats: &mut Stats) -> Outcome {
     }
     stats.merge(pref);
     out
+}
+
+
+// =====================================================================================
+// Exhaustive single-piece walks (C06, C11): every piece code x start square x 4-step path, played as
+// one turn on an otherwise almost empty board. A hash that confuses two squares of one piece code
+// within walking distance makes the engine withhold (or offer) the wrong fourth step; random play
+// needs the exact piece on the exact squares, the enumeration does not.
+// =====================================================================================
+
+fn walk_start(code: u8, from: u8, path: &[u8]) -> Option<gen::PosSpec> {
+    // squares the walker touches
+    let mut touched = vec![from];
+    let mut cur = from;
+    for &d in path {
+        cur = m::neighbour(cur, d)?;
+        touched.push(cur);
+    }
+    let mut b = Board::empty();
+    b.0[from as usize] = code;
+    let gold = m::is_gold(code);
+    // one rabbit per side, on its own home rank, away from everything the walker touches
+    let near = |sq: u8| touched.iter().any(|&t| t == sq || m::neighbours(t).any(|n| n == sq));
+    for (side, row) in [(true, 7u8), (false, 0u8)] {
+        if m::kind(code) == m::R && side == gold {
+            continue; // the walker is that side's rabbit
+        }
+        let mut placed = false;
+        for f in [0u8, 7, 1, 6, 2, 5, 3, 4] {
+            let sq = row * 8 + f;
+            if b.at(sq) == m::EMPTY && !near(sq) {
+                b.0[sq as usize] = m::mk(side, m::R);
+                placed = true;
+                break;
+            }
+        }
+        if !placed {
+            return None;
+        }
+    }
+    // a friendly guard next to every trap the walker touches (otherwise it could not cross it)
+    for &t in touched.iter() {
+        if m::is_trap(t) && !b.has_friend_adjacent(t, gold) {
+            let spot = m::neighbours(t).find(|n| !touched.contains(n) && b.at(*n) == m::EMPTY);
+            match spot {
+                Some(n) => b.0[n as usize] = m::mk(gold, m::R),
+                None => return None,
+            }
+        }
+    }
+    if b.rabbit_on_goal(true) || b.rabbit_on_goal(false) || !b.within_complement() || !b.traps_legal() {
+        return None;
+    }
+    Some(gen::PosSpec { board: b, gold_to_move: gold, move_number: 5, notation: 0 })
+}
+
+fn run_walks(cfg: &RunCfg, stats: &mut Stats, stride: usize) -> Outcome {
+    let mk = match registry::observer_for(&cfg.id) {
+        Some(m) => m,
+        None => return Outcome::Pass,
+    };
+    let id = cfg.id.clone();
+    let seed = cfg.seed;
+    let results: Vec<(Stats, Option<Violation>)> = std::thread::scope(|sc| {
+        (0..SHARDS)
+            .map(|shard| {
+                let id = id.clone();
+                sc.spawn(move || {
+                    install_hook();
+                    let mut st = Stats::default();
+                    let opts = crate::drive::WalkOpts { profile: crate::drive::Profile::Normal, expand: None, follow_norep: false, inject: crate::drive::Inject::No };
+                    let mut n = 0usize;
+                    for ci in 0..12u8 {
+                        let code = if ci < 6 { m::mk(true, ci + 1) } else { m::mk(false, ci - 5) };
+                        for from in 0..64u8 {
+                            for pidx in 0..256u32 {
+                                n += 1;
+                                if n % SHARDS != shard || (n / SHARDS) % stride != 0 {
+                                    continue;
+                                }
+                                let path = [(pidx & 3) as u8, ((pidx >> 2) & 3) as u8, ((pidx >> 4) & 3) as u8, ((pidx >> 6) & 3) as u8];
+                                let start = match walk_start(code, from, &path) {
+                                    Some(p) => gen::Start::Pos(p),
+                                    None => continue,
+                                };
+                                let actions: Vec<arimaa_engine_step::Action> = {
+                                    let mut cur = from;
+                                    path.iter()
+                                        .map(|&d| {
+                                            let a = to_action(m::MAction::Step { from: cur, dir: d });
+                                            cur = m::neighbour(cur, d).unwrap_or(cur);
+                                            a
+                                        })
+                                        .collect()
+                                };
+                                let mut obs = mk();
+                                match crate::drive::walk(&start, crate::drive::Source::Explicit(&actions), 0, &opts, &mut *obs, &mut st) {
+                                    Ok((end, _)) => {
+                                        if end.steps >= 3 {
+                                            st.bump("walks/four_step_walks_reaching_the_last_step");
+                                        }
+                                    }
+                                    Err(wf) if wf.inconclusive => {}
+                                    Err(wf) => {
+                                        let replay = replay_json(&id, "single_piece_walks", &wf.fail, &start, &wf.trace, crate::drive::Profile::Normal, seed, shard);
+                                        return (st, Some(Violation { replay, fail: wf.fail }));
+                                    }
+                                }
+                            }
+                        }
+                    }
+                    (st, None)
+                })
+            })
+            .collect::<Vec<_>>()
+            .into_iter()
+            .map(|h| h.join().expect("shard"))
+            .collect()
+    });
+    for (s, v) in results {
+        let mut s = s;
+        let keep: Vec<(String, u64)> = s.counters.iter().filter(|(k, _)| k.starts_with("walks/")).map(|(k, v)| (k.clone(), *v)).collect();
+        s.counters.clear();
+        for (k, v) in keep {
+            s.counters.insert(k, v);
+        }
+        stats.merge(s);
+        if let Some(v) = v {
+            return Outcome::Violation(v);
+        }
+    }
+    Outcome::Pass
 }
 
 // =====================================================================================
